@@ -11,7 +11,7 @@ ls -d seeded/*/ | sed 's#/$##' | xargs -P 8 -I{} bash -c '
   ( cd $wt && git apply /verif/$d/patch.diff ) || { echo "$name: PATCH DOES NOT APPLY"; git -C /repo worktree remove --force $wt; exit 0; }
   for c in $(python3 -c "import json;print(\" \".join(json.load(open(\"/verif/$d/meta.json\"))[\"checks\"]))"); do
     out=/var/tmp/mutregress/out-$name-$c; rm -rf $out; mkdir -p $out
-    ( cd /verif && VERIF_REPO=$wt VERIF_OUT=$out timeout 2400 ./check $c --tier quick > $out/log 2>&1 ); rc=$?
+    ( cd /verif && VERIF_REPO=$wt VERIF_OUT=$out timeout 2400 ./check $c --tier quick --seed ${MUTSEED:-1} > $out/log 2>&1 ); rc=$?
     n=$(grep -c "^VIOLATION" $out/log)
     if [ $rc -eq 1 ] && [ $n -gt 0 ]; then echo "$name $c: caught ($(grep -m1 -c no-failing-input-found $out/log) nfi)"; else echo "$name $c: MISSED rc=$rc"; fi
   done
